@@ -442,7 +442,8 @@ def extract(g, X):
         inv = re.search(r"XRef::Invalid\s*=>\s*err!\(\s*PdfError::(\w+)", b).group(1)
         codes = {"NullRef": 1, "FreeObject": 2, "UnspecifiedXRefEntry": 3}
         gb = X.fn_body(xref, "get")
-        none = re.search(r"None\s*=>\s*Err\(\s*PdfError::(\w+)", gb).group(1)
+        # a missing entry: `None => Err(E)` or `.ok_or(E)` / `.ok_or_else(|| E)`
+        none = re.match(r"PdfError::(\w+)", X.none_error(gb)).group(1)
         return try_get, str(codes[free]), str(codes[inv]), str(codes[none])
     g.attempt([("resolve_ref_get_in_try", "bool"), ("resolve_ref_free_err", "N"), ("resolve_ref_invalid_err", "N"), ("xref_get_none_err", "N")],
               "file.rs:resolve_ref / xref.rs:get", resolve_ref)
